@@ -52,7 +52,10 @@ class Protocol(with_metaclass(HTTPSemantic)):
 		match = self.PROTOCOL_RE.match(protocol)
 		if match is None:
 			raise InvalidLine(_(u"Invalid HTTP protocol: %r"), protocol.decode('ISO8859-1'))
-		self.__protocol = (int(match.group(2)), int(match.group(3)))
+		try:
+			self.__protocol = (int(match.group(2)), int(match.group(3)))
+		except ValueError:  # int() refuses very long digit strings
+			raise InvalidLine(_(u"Invalid HTTP protocol: %r"), protocol[:32].decode('ISO8859-1'))
 		self.name = match.group(1)
 
 	def compose(self) -> bytes:
